@@ -11,6 +11,8 @@ def main():
     repo = os.environ.get("POLAR_REPO", "/repo")
     sys.path.insert(0, verif)
     sys.path.insert(0, repo)
+    if hasattr(sys, "set_int_max_str_digits"):
+        sys.set_int_max_str_digits(0)
     reply = os.fdopen(int(sys.argv[1]), "w")
     from sim import world
     world.preload()
